@@ -1,6 +1,237 @@
-//! C07 harness commands (stub).
-use std::io::Write;
+//! C07: numeric literals through the REAL code.
+//!
+//! `hx c07 lit` : line `<enc text>`            -> `PrettyDecimal::from_str(text)` and `to_string()` of the result
+//! `hx c07 pos` : line `<position> <enc text>` -> the literal embedded in a syntactic position, parsed with the real
+//!                ledger parser (`parse_ledger`) / the real price-db loader (`report::process`), number extracted from
+//!                the tree, entry re-printed with the real printer.
+//! Records:
+//!   `ok (dec NEG MANT SCALE n|p|c) print=<enc>` [` fmt=<enc formatted entry>`]
+//!   `err <Variant> [pos]` | `parse-err` | `shape <sexp>` | `panic <enc msg>`
+use std::io::{BufRead, Write};
+use std::path::PathBuf;
+use std::str::FromStr;
 
-pub fn run(_args: &[String], _out: &mut dyn Write) -> i32 {
+use bumpalo::Bump;
+use okane_core::report::{self, query, ReportContext};
+use okane_core::syntax::{self, display::DisplayContext, expr, plain, pretty_decimal::{Error, PrettyDecimal}};
+
+use crate::proc;
+use crate::sx::{self, enc};
+use crate::tree;
+
+fn err_rec(e: &Error) -> String {
+    match e {
+        Error::UnexpectedChar(_, i) => format!("err UnexpectedChar {}", i),
+        Error::CommaRequired(i) => format!("err CommaRequired {}", i),
+        Error::UnexpectedEnd(n) => format!("err UnexpectedEnd {}", n),
+        Error::InvalidDecimal(_) => "err InvalidDecimal".to_string(),
+        #[allow(unreachable_patterns)]
+        _ => "err Other".to_string(),
+    }
+}
+
+fn ok_rec(d: &PrettyDecimal) -> String {
+    let d2 = d.clone();
+    match sx::catch(move || d2.to_string()) {
+        Ok(p) => format!("ok {} print={}", tree::pdec(d), enc(&p)),
+        Err(m) => format!("panic display:{}", enc(&m)),
+    }
+}
+
+pub fn lit_record(s: &str) -> String {
+    let s2 = s.to_string();
+    match sx::catch(move || PrettyDecimal::from_str(&s2)) {
+        Err(m) => format!("panic {}", enc(&m)),
+        Ok(Err(e)) => err_rec(&e),
+        Ok(Ok(d)) => ok_rec(&d),
+    }
+}
+
+fn posting_text(body: &str) -> String {
+    format!("2024/01/01 x\n    A    {}\n    B\n", body)
+}
+
+fn amount_of_vexpr<'a>(v: &'a expr::ValueExpr<'a>, pos: &str) -> Option<&'a expr::Amount<'a>> {
+    match (pos, v) {
+        ("paren", expr::ValueExpr::Paren(expr::Expr::Value(b))) => match b.as_ref() {
+            expr::ValueExpr::Amount(a) => Some(a),
+            _ => None,
+        },
+        ("neg", expr::ValueExpr::Paren(expr::Expr::Unary(u))) => match u.expr.as_ref() {
+            expr::Expr::Value(b) => match b.as_ref() {
+                expr::ValueExpr::Amount(a) => Some(a),
+                _ => None,
+            },
+            _ => None,
+        },
+        ("paren", _) | ("neg", _) => None,
+        (_, expr::ValueExpr::Amount(a)) => Some(a),
+        _ => None,
+    }
+}
+
+fn exch_vexpr<'a>(x: &'a syntax::Exchange<'a>) -> (&'static str, &'a expr::ValueExpr<'a>) {
+    match x {
+        syntax::Exchange::Rate(v) => ("rate", v),
+        syntax::Exchange::Total(v) => ("total", v),
+    }
+}
+
+fn pos_ledger(pos: &str, lit: &str) -> Option<String> {
+    Some(match pos {
+        "amount" => posting_text(&format!("{} USD", lit)),
+        "paren" => posting_text(&format!("({} USD)", lit)),
+        "neg" => posting_text(&format!("(-{} USD)", lit)),
+        "cost" => posting_text(&format!("1 AAA @ {} USD", lit)),
+        "total" => posting_text(&format!("1 AAA @@ {} USD", lit)),
+        "lot" => posting_text(&format!("1 AAA {{{} USD}}", lit)),
+        "lottotal" => posting_text(&format!("1 AAA {{{{{} USD}}}}", lit)),
+        "balance" => posting_text(&format!("1 USD = {} USD", lit)),
+        "balonly" => posting_text(&format!("= {} USD", lit)),
+        "format" => format!("commodity USD\n    format {} USD\n", lit),
+        _ => return None,
+    })
+}
+
+fn pos_record(pos: &str, lit: &str) -> String {
+    if pos == "pricedb" {
+        return pricedb_record(lit);
+    }
+    let text = match pos_ledger(pos, lit) {
+        Some(t) => t,
+        None => return "bad-case".to_string(),
+    };
+    let pos = pos.to_string();
+    let r = sx::catch(move || {
+        let entries = match tree::parse_plain(&text) {
+            Ok(es) => es,
+            Err(_) => return "parse-err".to_string(),
+        };
+        if entries.len() != 1 {
+            return format!("shape ({})", entries.iter().map(tree::entry).collect::<Vec<_>>().join(" "));
+        }
+        let e: &plain::LedgerEntry = &entries[0];
+        let shape = || format!("shape {}", tree::entry(e));
+        let amt: Option<&expr::Amount> = match (pos.as_str(), e) {
+            ("format", syntax::LedgerEntry::Commodity(c)) => c.details.iter().find_map(|d| match d {
+                syntax::CommodityDetail::Format(a) => Some(a),
+                _ => None,
+            }),
+            (_, syntax::LedgerEntry::Txn(t)) => {
+                if t.posts.len() != 2 {
+                    return shape();
+                }
+                let p = &t.posts[0];
+                match pos.as_str() {
+                    "amount" | "paren" | "neg" => p.amount.as_ref().and_then(|a| amount_of_vexpr(&a.amount, &pos)),
+                    "cost" => p.amount.as_ref().and_then(|a| a.cost.as_ref()).and_then(|x| {
+                        let (k, v) = exch_vexpr(x);
+                        if k == "rate" { amount_of_vexpr(v, "cost") } else { None }
+                    }),
+                    "total" => p.amount.as_ref().and_then(|a| a.cost.as_ref()).and_then(|x| {
+                        let (k, v) = exch_vexpr(x);
+                        if k == "total" { amount_of_vexpr(v, "total") } else { None }
+                    }),
+                    "lot" => p.amount.as_ref().and_then(|a| a.lot.price.as_ref()).and_then(|x| {
+                        let (k, v) = exch_vexpr(x);
+                        if k == "rate" { amount_of_vexpr(v, "lot") } else { None }
+                    }),
+                    "lottotal" => p.amount.as_ref().and_then(|a| a.lot.price.as_ref()).and_then(|x| {
+                        let (k, v) = exch_vexpr(x);
+                        if k == "total" { amount_of_vexpr(v, "lottotal") } else { None }
+                    }),
+                    "balance" | "balonly" => p.balance.as_ref().and_then(|v| amount_of_vexpr(v, "balance")),
+                    _ => None,
+                }
+            }
+            _ => None,
+        };
+        match amt {
+            None => shape(),
+            Some(a) => {
+                if a.commodity != "USD" {
+                    return shape();
+                }
+                let ctx = DisplayContext::default();
+                let printed = format!("{}", ctx.as_display(e));
+                format!("{} fmt={}", ok_rec(&a.value), enc(&printed))
+            }
+        }
+    });
+    match r {
+        Ok(s) => s,
+        Err(m) => format!("panic {}", enc(&m)),
+    }
+}
+
+/// price-db position: `P 2024/01/01 AAA <lit> USD` loaded by the real `report::process` from a real file
+/// (the price-db loader reads `std::fs`), observed through `Ledger::eval("1 AAA", exchange USD)`.
+/// Record: `value NEG MANT SCALE` of the converted amount, `parse-err`, `other-err <enc>`.
+fn pricedb_record(lit: &str) -> String {
+    let dir = PathBuf::from("/verif/work/C07");
+    let _ = std::fs::create_dir_all(&dir);
+    let path = dir.join(format!("pricedb-{}.txt", std::process::id()));
+    if std::fs::write(&path, format!("P 2024/01/01 AAA {} USD\n", lit)).is_err() {
+        return "bad-case".to_string();
+    }
+    let files: proc::Files = vec![(
+        "/r/main.ledger".to_string(),
+        "commodity AAA\n\ncommodity USD\n\n".to_string(),
+    )];
+    let p2 = path.clone();
+    let r = sx::catch(move || {
+        let arena = Bump::new();
+        let mut ctx = ReportContext::new(&arena);
+        let opts = report::ProcessOptions { price_db_path: Some(p2) };
+        let res = report::process(&mut ctx, proc::fake_loader(&files, "/r/main.ledger"), &opts);
+        let rec = match res {
+            Err(report::ReportError::PriceDB(_)) => "parse-err".to_string(),
+            Err(e) => format!("other-err {}", enc(&proc::render_chain(&e))),
+            Ok(mut ledger) => {
+                let ectx = query::EvalContext {
+                    date: chrono::NaiveDate::from_ymd_opt(2024, 1, 2).unwrap(),
+                    exchange: Some("USD".to_string()),
+                };
+                match ledger.eval(&ctx, "1 AAA", &ectx) {
+                    Err(e) => format!("other-err {}", enc(&e.to_string())),
+                    Ok(a) => {
+                        let vs = a.into_values();
+                        if vs.len() != 1 {
+                            return format!("other-err {}", enc("not a single amount"));
+                        }
+                        let (c, v) = vs.into_iter().next().unwrap();
+                        format!("value {} {}", enc(c.as_str()), tree::decimal(&v))
+                    }
+                }
+            }
+        };
+        rec
+    });
+    let _ = std::fs::remove_file(&path);
+    match r {
+        Ok(s) => s,
+        Err(m) => format!("panic {}", enc(&m)),
+    }
+}
+
+pub fn run(args: &[String], out: &mut dyn Write) -> i32 {
+    let mode = args.first().map(|s| s.as_str()).unwrap_or("lit");
+    let stdin = std::io::stdin();
+    for line in stdin.lock().lines() {
+        let line = line.unwrap();
+        let ws: Vec<&str> = line.split(' ').filter(|w| !w.is_empty()).collect();
+        let rec = match (mode, ws.as_slice()) {
+            ("lit", [t]) => match sx::dec(t) {
+                Some(s) => lit_record(&s),
+                None => "bad-case".to_string(),
+            },
+            ("pos", [p, t]) => match sx::dec(t) {
+                Some(s) => pos_record(p, &s),
+                None => "bad-case".to_string(),
+            },
+            _ => "bad-case".to_string(),
+        };
+        writeln!(out, "{}", rec).unwrap();
+    }
     0
 }
